@@ -11,8 +11,8 @@ import (
 // LALR(1) states, established by a simultaneous BFS over transitions from the
 // entry states (no assumption about state numbering).
 type Match struct {
-	RefOf    [][]int // impl state -> reference states (more than one only when the implementation identifies states the reference keeps apart)
-	ImplOf   []int   // reference state -> impl state, -1 when not reached
+	RefOf    [][]int       // impl state -> reference states (more than one only when the implementation identifies states the reference keeps apart)
+	ImplOf   []int         // reference state -> impl state, -1 when not reached
 	Trans    []map[int]int // impl transitions per state
 	Findings []Finding
 	// SharedAug counts impl states that stand for several reference states whose
